@@ -37,13 +37,28 @@ fn env_seed() -> u64 {
     }
 }
 
+fn absolute(p: PathBuf) -> PathBuf {
+    if p.is_absolute() {
+        p
+    } else {
+        std::env::current_dir().map(|c| c.join(&p)).unwrap_or(p)
+    }
+}
+
 fn verif_dir() -> PathBuf {
-    PathBuf::from(std::env::var("VERIF_DIR").unwrap_or_else(|_| "/verif".to_string()))
+    absolute(PathBuf::from(std::env::var("VERIF_DIR").unwrap_or_else(|_| "/verif".to_string())))
 }
 
 fn main() {
     world::install_panic_hook();
     let args: Vec<String> = std::env::args().collect();
+    // the process will work inside a scratch directory: make path-valued settings absolute first
+    if let Ok(d) = std::env::var("VERIF_REPLAY_DIR") {
+        std::env::set_var("VERIF_REPLAY_DIR", absolute(PathBuf::from(d)));
+    }
+    if let Ok(d) = std::env::var("VERIF_KNOWN_FILE") {
+        std::env::set_var("VERIF_KNOWN_FILE", absolute(PathBuf::from(d)));
+    }
     let cmd = args.get(1).map(|s| s.as_str()).unwrap_or("");
     let code = match cmd {
         "worker" => {
@@ -54,7 +69,7 @@ fn main() {
                 to: arg(&args, "--to").expect("--to").parse().unwrap(),
                 stride: arg(&args, "--stride").unwrap_or("1").parse().unwrap(),
                 offset: arg(&args, "--offset").unwrap_or("0").parse().unwrap(),
-                out: PathBuf::from(arg(&args, "--out").expect("--out")),
+                out: absolute(PathBuf::from(arg(&args, "--out").expect("--out"))),
                 dump_hashes: flag(&args, "--dump-hashes"),
             };
             driver::worker(&a);
@@ -89,7 +104,7 @@ fn main() {
             driver::check(&a)
         }
         "replay" => match args.get(2) {
-            Some(p) => driver::replay(&PathBuf::from(p)),
+            Some(p) => driver::replay(&absolute(PathBuf::from(p))),
             None => {
                 eprintln!("usage: sim replay <file>");
                 2
@@ -154,5 +169,6 @@ fn main() {
             2
         }
     };
+    world::sandbox_leave();
     std::process::exit(code);
 }
